@@ -62,6 +62,14 @@ fn load_replay(path: &str) -> ReplayData {
 }
 
 fn main() {
+    // backstop outside the reach of anything in this process: the kernel ends the run after this
+    // many seconds of real time (a run takes milliseconds; the engine's own watchdog reports a
+    // stuck run after 60 s; this one catches a process wedged in e.g. a corrupted allocator)
+    let limit: u32 = std::env::var("VERIF_RUN_SECS").ok().and_then(|v| v.parse().ok()).unwrap_or(150);
+    unsafe {
+        libc::alarm(limit);
+    }
+
     let args: Vec<String> = std::env::args().collect();
     if args.len() < 3 {
         eprintln!("usage: simrun <scenario> <seed> [--strategy rw|sticky:P|pct:D] [--replay FILE] [--trace] [--max-steps N] [--no-faults]");
